@@ -521,6 +521,10 @@ Definition ob_no_shared_pointee_writes : bool :=
      && (negb (is_prefix (bs "Client.") fn) || name_is "message.isDelivered" lhs || name_is "*isEnc" lhs) end)
    param_pointee_writes.
 
+(* the library's loggers (package log) are stateless: no method of a logger type assigns a field of its receiver.
+   One logger is handed to every connection of a Client and called under the per-connection mutex only. *)
+Definition ob_loggers_stateless : bool := match log_method_writes with [] => true | _ => false end.
+
 (* model level: objects guarded by m, used by the exclusivity theorem *)
 Definition guarded_by (prot : obj -> protection) (m : N) (e : event) : bool :=
   match access e with
